@@ -105,6 +105,8 @@ def build_on_demand(variant, i):
     N = int(i['N'])
     h = i['header'] if 'header' in i else header_from(i)
     env = predicates(h, N)
+    if N > 2_000_000:
+        raise ValueError('witness body too large to realise')
     blob = bytes((7 * k + 3) % 251 for k in range(N))
     env['hdr_is'] = lambda d, key, *parts: d.get(key) == ''.join(str(p) for p in parts)
     env['is_slice'] = lambda d, lo, hi: d == blob[lo:hi] and len(d) == hi - lo
